@@ -70,7 +70,8 @@ func init() {
 					}
 				}
 			}
-			return map[string][]string{"combo": want, "flip": {"to-system:plainctx", "to-system:sysctx", "to-ordinary:sysctx", "to-system-migrate:plainctx", "to-system-migrate:sysctx", "child-create-over-system-parent:plainctx"},
+			return map[string][]string{"combo": want, "flip": {"to-system:plainctx", "to-system:sysctx", "to-ordinary:sysctx", "to-system-migrate:plainctx", "to-system-migrate:sysctx", "child-create-over-sysent-parent:plainctx:payload-flag=false", "child-create-over-sysent-parent:plainctx:payload-flag=true", "child-create-over-sysent-parent:sysctx:payload-flag=false",
+				"child-create-over-plainent-parent:plainctx:payload-flag=true", "child-create-over-plainent-parent:sysctx:payload-flag=true", "child-create-over-plainent-parent:plainctx:payload-flag=false"},
 				"system_context_via": {"GetSystemContext", "NewSystemMutateContext", "GetSystemContext twice", "NewSystemMutateContext over a system context", "ordinary after UpdateContext", "the context the transaction function is handed"},
 				"child_constraint":   {"delete through the parent store from ordinary context", "delete through the child store from ordinary context", "update through the child store from ordinary context", "DeleteWhere through the parent store from ordinary context", "delete through the parent store from system context"},
 				"cascade":            {"any-system=true:ordinary:DeleteById", "any-system=true:ordinary:DeleteWhere", "any-system=true:system:DeleteById", "any-system=false:ordinary:DeleteById", "any-system=false:ordinary:DeleteWhere"},
@@ -125,9 +126,16 @@ func runC16(c *core.Ctx, idx int) {
 		cur, exists := m[op.Id]
 		switch op.Kind {
 		case "create":
-			if exists {
-				// through the child store over an existing parent-only entity: only generated for a system entity and an
-				// ordinary context, where it is an attempt to rewrite a system entity
+			if exists && op.Over && !cur.Child {
+				// through the child store over an existing parent-only entity: the entity's shared fields are overwritten
+				// (an update of that entity) and the child part is added; the flag stays what it was at creation
+				if cur.IsSystem && !op.SysCtx {
+					op.Exp = "reject"
+				} else {
+					op.Exp = "ok"
+					cur.Name, cur.Tags, cur.Child, cur.Extra = op.Name, normTags(op.Tags), true, op.Extra
+				}
+			} else if exists {
 				op.Exp = "reject"
 			} else if op.Flag && !op.SysCtx {
 				op.Exp = "reject"
@@ -254,11 +262,15 @@ func runC16(c *core.Ctx, idx int) {
 						}
 					}
 				}
-				// through the child store over an existing parent-only system entity, from an ordinary context
-				if r.P(0.25) {
+				// through the child store over an existing parent-only entity: system or ordinary, from either context,
+				// with either flag in the payload
+				if r.P(0.3) {
 					for _, id := range existing {
-						if cur := scratch[id]; cur.IsSystem && !cur.Child {
-							op.Id, op.Child, op.Over, op.SysCtx = id, true, true, false
+						if cur := scratch[id]; !cur.Child && r.P(0.6) {
+							op.Id, op.Child, op.Over = id, true, true
+							if cur.IsSystem && r.P(0.5) {
+								op.SysCtx = false
+							}
 							break
 						}
 					}
@@ -319,7 +331,7 @@ func runC16(c *core.Ctx, idx int) {
 			}
 			c.Nontrivial(op.Kind, op.SysCtx, storedSys, op.Flag, op.Migrate, len(op.Fields), op.Exp, i, op.Child, op.Over, tolerant)
 			if op.Over {
-				c.Cover("flip", "child-create-over-system-parent:plainctx")
+				c.Cover("flip", fmt.Sprintf("child-create-over-%s-parent:%s:payload-flag=%v", ents, ctxs, op.Flag))
 			}
 			if op.Exp != "ok" {
 				if tolerant && op.Kind != "create" && existed {
